@@ -27,8 +27,9 @@ Record fb_inv (f : feedback) (syms : list Z) : Prop := {
   fi_dvalid : Forall delta_valid (f_deltas f);
   fi_last : f_last f = f_ref f * 64000 + sumZ (map snd (f_deltas f)) }.
 
-Lemma fb_new_inv b t : fb_inv (fb_new b t) [].
+Lemma fb_new_inv b t : 0 <= b < 65536 -> fb_inv (fb_new b t) [].
 Proof.
+  intros Hb.
   unfold fb_new. constructor; cbn [f_chunks f_chunk f_count f_next f_base f_deltas f_len f_last f_ref length map filter sumZ].
   - apply pack_inv_init.
   - split; constructor.
@@ -105,12 +106,12 @@ Proof.
   - rewrite inc16_add16, Hc, (app_length _ [sym]). cbn [length]. unfold add16. lia.
   - rewrite inc16_add16, Hn, (app_length _ [sym]). cbn [length]. unfold add16. lia.
   - rewrite map_app, (filter_app _ _ [sym]), Ht. cbn [map fst filter]. f_equal.
-    unfold sym, nonzero. destruct small; reflexivity.
+    subst sym small. unfold nonzero. destruct ((0 <=? d250) && (d250 <=? 255)); reflexivity.
   - rewrite map_app, sumZ_app, <- Hl. cbn [map sumZ]. unfold dsize. cbn [fst].
-    unfold sym. destruct small; cbn [Z.eqb]; lia.
+    subst sym small. rewrite Fn. destruct ((0 <=? d250) && (d250 <=? 255)); cbn; lia.
   - apply Forall_app. split; [auto|]. constructor; [|constructor]. unfold delta_valid. cbn [fst snd].
-    split; [lia|]. unfold sym, small. destruct ((0 <=? d250) && (d250 <=? 255)) eqn:E; [left|right]; lia.
-  - rewrite map_app, sumZ_app, Hla. cbn [map snd sumZ]. lia.
+    split; [lia|]. subst sym small. destruct ((0 <=? d250) && (d250 <=? 255)) eqn:E; [left|right]; lia.
+  - rewrite map_app, sumZ_app. cbn [map snd sumZ]. rewrite Fl, Fr in Hla. lia.
 Qed.
 
 (* first_add_succeeds: with the reference taken from the packet's own time the
@@ -123,6 +124,12 @@ Proof.
   { unfold round250. destruct (_ >=? 0) eqn:E; lia. }
   destruct ((_ <? -32768) || (_ >? 32767)) eqn:E; [lia|].
   destruct (push_sym _ _). discriminate.
+Qed.
+
+Lemma sumZ_dsize_nonneg l : 0 <= sumZ (map dsize l).
+Proof.
+  induction l as [|d tl IH]; cbn [map sumZ]; [lia|].
+  assert (1 <= dsize d <= 2) by (unfold dsize; destruct (fst d =? 1); lia). lia.
 Qed.
 
 (* ---- the packet ---- *)
@@ -158,5 +165,20 @@ Proof.
   subst p. unfold fb_get_rtcp. cbn [p_chunks p_count p_deltas p_base p_fb p_mlen p_hlen p_pad].
   split; [exact Hst|]. split; [rewrite Hc; lia|]. split; [exact Ht|]. split; [exact Hd|].
   split; [reflexivity|]. split; [reflexivity|].
-  rewrite map_length, <- Hl. cbv zeta. split; [reflexivity|]. split; [lia|reflexivity].
+  cbv zeta. rewrite map_length, <- Hl. pose proof (sumZ_dsize_nonneg (f_deltas f)) as Hnn. rewrite <- Hl in Hnn.
+  split; [reflexivity|]. split; [|reflexivity]. intros Hsz.
+  set (x := 20 + 2 * Z.of_nat (length (fb_final_chunks f)) + f_len f) in *.
+  assert (20 <= x) by lia. lia.
+Qed.
+
+(* time_within_125us at the packet level: after a successful addReceived the
+   time a receiver decodes for that packet - reference time * 64 ms plus the sum
+   of all deltas up to and including its own - is within 125 us of the arrival
+   time given, whatever rounding happened before *)
+Theorem add_received_time f syms seq16 t f' :
+  fb_inv f syms -> fb_add_received f seq16 t = Some f' ->
+  Z.abs (t - (f_ref f' * 64000 + sumZ (map snd (f_deltas f')))) <= 125.
+Proof.
+  intros Hinv Hadd. destruct (fb_add_inv f syms seq16 t f' Hinv Hadd) as (Hinv' & Hw & _ & _).
+  rewrite <- (fi_last _ _ Hinv'). exact Hw.
 Qed.
